@@ -89,7 +89,7 @@ func (q *Query) Window(n int) (int, int) {
 		from = n
 	}
 	to := n
-	if l := q.EffLimit(); l >= 0 && from+l < to {
+	if l := q.EffLimit(); l >= 0 && l < to-from {
 		to = from + l
 	}
 	return from, to
